@@ -21,7 +21,7 @@ from checks.c08_expgrad import gen_dataset, make_moment, MOMENTS
 PROPERTY = "C10"
 
 TIERS = {
-    "quick": {"runs": 700, "wall_cap_s": 75, "det_seeds": 16},
+    "quick": {"runs": 600, "wall_cap_s": 75, "det_seeds": 16},
     "thorough": {"runs": 16000, "wall_cap_s": 800, "det_seeds": 128, "det_extra_workers": 4},
 }
 
@@ -98,6 +98,20 @@ def gen_plan(seed, index, tier):
         scores = sorted({r[0] for r in rows})
         nq = rng.randint(2, 12)
         plan["xq"] = [[rng.choice(scores + [round(rng.random(), 3), -1e9, 1e9, 0.0, 1.0]), rng.randrange(m)] for _ in range(nq)]
+    # history: the same estimator object was fitted on other data and asked for predictions before
+    plan["prior"] = None
+    if index >= 30 and rng.random() < 0.25:
+        pr = list(plan["rows"])
+        rng.shuffle(pr)
+        keep = max(6, int(len(pr) * rng.choice([0.5, 0.7, 1.0])))
+        pr = pr[:keep]
+        if fam == "to":
+            gs = {r[1] for r in pr}
+            okp = all({r[2] for r in pr if r[1] == g} == {0, 1} for g in gs) and gs >= {q[1] for q in plan["xq"]}
+        else:
+            okp = len({r[1] for r in pr}) >= 2 and len({r[2] for r in pr}) >= 2
+        if okp:
+            plan["prior"] = {"rows": pr, "max_iter": rng.choice([2, 4, 7]), "seed": rng.randint(0, 2**31 - 1)}
     nops = rng.randint(4, 10)
     ops = []
     int_seed = rng.randint(0, 2**31 - 1)
@@ -145,8 +159,9 @@ def _fit_model(plan, ctx):
         mom = make_moment(plan["moment"], plan["bound_kind"], plan["bound"], plan["ratio"])
         est = ExponentiatedGradient(seams.ExactClassifier(col=0, log_payload=False), mom, eps=plan["eps"],
                                     max_iter=plan["max_iter"], eta0=plan["eta0"], run_linprog_step=plan["lp"])
-        ok, ret, site = ctx.call(est.fit, X, y, sensitive_features=g)
         Xq = pd.DataFrame({"x": [float(v) for v in plan["xq"]]})
+        _prior_history(plan, ctx, est, Xq, {}, float)
+        ok, ret, site = ctx.call(est.fit, X, y, sensitive_features=g)
         return ok, ret, site, est, Xq, {}
     if fam == "eg_reg":
         X = pd.DataFrame({"x": [float(r[0]) for r in rows]})
@@ -155,8 +170,9 @@ def _fit_model(plan, ctx):
         est = ExponentiatedGradient(seams.ExactRegressor(col=0, loss=plan["loss"]),
                                     BoundedGroupLoss(loss, upper_bound=plan["upper_bound"]), eps=plan["eps"],
                                     max_iter=plan["max_iter"], eta0=plan["eta0"], run_linprog_step=plan["lp"])
-        ok, ret, site = ctx.call(est.fit, X, y, sensitive_features=g)
         Xq = pd.DataFrame({"x": [float(v) for v in plan["xq"]]})
+        _prior_history(plan, ctx, est, Xq, {}, float)
+        ok, ret, site = ctx.call(est.fit, X, y, sensitive_features=g)
         return ok, ret, site, est, Xq, {}
     X = pd.DataFrame({"score": [float(r[0]) for r in rows]})
     y = np.array([r[2] for r in rows])
@@ -167,9 +183,36 @@ def _fit_model(plan, ctx):
     est = ThresholdOptimizer(estimator=stub, constraints=plan["constraints"], objective=plan["objective"],
                              grid_size=plan["grid_size"], flip=plan["flip"], prefit=plan["prefit"],
                              predict_method=("auto" if plan["method"] != "predict" else "predict"))
-    ok, ret, site = ctx.call(est.fit, X, y, sensitive_features=g)
     Xq = pd.DataFrame({"score": [float(q[0]) for q in plan["xq"]]})
-    return ok, ret, site, est, Xq, {"sensitive_features": np.array([f"g{q[1]}" for q in plan["xq"]])}
+    kwq = {"sensitive_features": np.array([f"g{q[1]}" for q in plan["xq"]])}
+    if not plan["prefit"]:
+        _prior_history(plan, ctx, est, Xq, kwq, int, xname="score")
+    ok, ret, site = ctx.call(est.fit, X, y, sensitive_features=g)
+    return ok, ret, site, est, Xq, kwq
+
+
+def _prior_history(plan, ctx, est, Xq, kw, ytype, xname="x"):
+    """Earlier life of the same estimator object: fit on other data, then predictions.  Nothing of it
+    may show in the model that the later fit produces."""
+    pr = plan.get("prior")
+    if not pr:
+        return
+    rows = pr["rows"]
+    Xp = pd.DataFrame({xname: [float(r[0]) for r in rows]})
+    yp = np.array([ytype(r[2]) for r in rows])
+    gp = np.array([f"g{r[1]}" for r in rows])
+    saved = getattr(est, "max_iter", None)
+    if saved is not None:
+        est.set_params(max_iter=pr["max_iter"])
+    ok, _r, _s = ctx.call(est.fit, Xp, yp, sensitive_features=gp)
+    if ok:
+        ctx.call(est._pmf_predict, Xq, **kw)
+        ctx.call(est.predict, Xq, random_state=pr["seed"], **kw)
+        ctx.fault("refit_history")
+    if saved is not None:
+        est.set_params(max_iter=saved)
+    if getattr(est, "nu", "absent") is not None and hasattr(est, "nu"):
+        est.nu = None  # keep recorded finding F-C19-2 (nu overwritten by fit) out of this check
 
 
 def _pmf(ctx, est, Xq, kw):
@@ -277,9 +320,10 @@ def execute(plan, ctx):
     if _state_digest(est, fam) != digest0:
         ctx.fail("C10.state_mutated", "prediction calls altered the fitted state")
     # ---- seam-agnostic statistical fallback -----------------------------------------
-    if plan.get("stat") or ctx.probes.get("unscripted_draw"):
+    if plan.get("stat") or ctx.probes.get("unscripted_draw") or ctx.probes.get("consumption_pattern_changed"):
         _statistical(ctx, est, Xq, kw, fam, p, pred_by_t if regression else None, w if fam.startswith("eg") else None, plan)
     sig["ops"] = "".join(kinds)[:8]
+    sig["refit"] = bool(plan.get("prior"))
     ctx.state(sig)
     ctx.transition({"family": fam, "ops": sorted(set(kinds))})
 
@@ -491,6 +535,8 @@ def shrink_candidates(plan):
         return q
 
     ops = p["ops"]
+    if p.get("prior"):
+        yield mod(prior=None)
     if p.get("stat"):
         yield mod(stat=False)
     for size in (len(ops) // 2, 2, 1):
